@@ -174,6 +174,14 @@ func run(c *harness.Ctx, i int) {
 		// tar stream written by Go's archive/tar (PAX), entries in depth-first order
 		var tb bytes.Buffer
 		tw := tar.NewWriter(&tb)
+		// the stream has no member for the root (and desync is asked to add one), or its own ("./", as `tar -C dir -cf
+		// x.tar .` writes it) - and desync is sometimes asked to add one all the same
+		rootStyle := []string{"none", "none", "own", "own+add"}[rng.Intn(4)]
+		pfx := ""
+		if rootStyle != "none" {
+			pfx = "./"
+			tw.WriteHeader(&tar.Header{Typeflag: tar.TypeDir, Name: "./", Mode: 0755, ModTime: time.Unix(1500000000, 0), Format: tar.FormatPAX})
+		}
 		for _, e := range entries {
 			if e.Path == "." || e.Kind == "fifo" || e.Kind == "sock" || e.Kind == "chr" || e.Kind == "blk" {
 				continue
@@ -185,7 +193,7 @@ func run(c *harness.Ctx, i int) {
 				// names longer than a filesystem allows (PAX long names): only a tar stream can carry them
 				e.Path = e.Path + strings.Repeat("L", 256+rng.Intn(700))
 			}
-			h := &tar.Header{Name: e.Path, Mode: int64(e.Mode & 0777), Uid: e.UID, Gid: e.GID, ModTime: time.Unix(0, e.MTime), Format: tar.FormatPAX}
+			h := &tar.Header{Name: pfx + e.Path, Mode: int64(e.Mode & 0777), Uid: e.UID, Gid: e.GID, ModTime: time.Unix(0, e.MTime), Format: tar.FormatPAX}
 			switch e.Kind {
 			case "dir":
 				h.Typeflag = tar.TypeDir
@@ -207,9 +215,25 @@ func run(c *harness.Ctx, i int) {
 		}
 		tw.Close()
 		// only entries whose parents made it into the stream
-		if err := desync.Tar(context.Background(), &buf, desync.NewTarReader(bytes.NewReader(tb.Bytes()), desync.TarReaderOptions{AddRoot: true})); err != nil {
-			c.Violation("tar-failed", "Tar from a tar stream failed: %v", err)
+		if err := desync.Tar(context.Background(), &buf, desync.NewTarReader(bytes.NewReader(tb.Bytes()), desync.TarReaderOptions{AddRoot: rootStyle != "own"})); err != nil {
+			if rootStyle == "own+add" {
+				// a root of its own and one added: refusing that is fine
+				c.Count("tar_streams_refused", 1)
+				c.NonTrivial("tar-stream|own+add|refused")
+				return
+			}
+			c.Violation("tar-failed", "Tar from a tar stream (root member: %s) failed: %v", rootStyle, err)
 			return
+		}
+		if rootStyle == "own+add" {
+			if _, verr := oracle.ValidateCatar(buf.Bytes(), false); verr != nil {
+				c.Violation("malformed-archive:tar-stream-two-roots", "tar stream with its own './' member packed with the add-root option: Tar reported success and the archive is malformed: %v", verr)
+			}
+			c.NonTrivial("tar-stream|own+add|accepted")
+			return
+		}
+		if rootStyle == "own" {
+			c.NonTrivial("tar-stream|own-root")
 		}
 	}
 	if source == "disk" && i%4 == 1 && len(entries) < 400 {
